@@ -7,6 +7,7 @@ import (
 	"go/types"
 	"strings"
 
+	"verif/checker/internal/eval"
 	"verif/checker/internal/flow"
 	"verif/checker/internal/load"
 )
@@ -38,6 +39,9 @@ func init() {
 	mutant(&Mutant{Name: "c06-collapse-ignores-keepwhitespace", Property: "C06", File: "xml/xml.go",
 		Old: "if !o.KeepWhitespace && next.TokenType == xml.TextToken && parse.IsAllWhitespace(next.Data) {", New: "if next.TokenType == xml.TextToken && parse.IsAllWhitespace(next.Data) {",
 		Rule: "R06.3", Construct: "whitespace-only text"})
+	mutant(&Mutant{Name: "c06-attr-entities-not-reescaped", Property: "C06", File: "xml/xml.go",
+		Old: "val = parse.ReplaceEntities(val, EntitiesMap, TextRevEntitiesMap)", New: "val = parse.ReplaceEntities(val, EntitiesMap, nil)",
+		Rule: "R06.4", Construct: "ReplaceEntities(val)"})
 	mutant(&Mutant{Name: "c07-guard-includes-plus", Property: "C07", File: "json/json.go",
 		Old: "('0' <= text[0] && text[0] <= '9' || text[0] == '-')", New: "('+' <= text[0] && text[0] <= '9' || text[0] == '-')",
 		Rule: "R07.1", Construct: "number guard"})
@@ -229,6 +233,44 @@ func runC06(c *Ctx) {
 		c.R.Check(p == nil, r3, fmt.Sprintf("xml.Minifier.Minify/whitespace-only text recognised for dropping#%d", k), c.pos(y.Expr), "unreachable when KeepWhitespace", "with KeepWhitespace a whitespace-only text between tags is still dropped entirely (`<a> </a>` → `<a/>`): "+pathStr(c, g, p))
 	}
 	c.R.Floor(r3, "whitespace-only text tests", k, 1)
+	c.entityReescape("R06.4", "xml", 2)
+}
+
+// entityReescape (R06.4 / R05.4): decoded character references never leave a bare markup character.
+func (c *Ctx) entityReescape(rule, rel string, floor int) {
+	c.R.Rule(rule, "package "+rel+": parse.ReplaceEntities / ReplaceMultipleWhitespaceAndEntities decode numeric character references (&#60; &#38;) to the bare character; in XML both text and attribute values must not contain a bare `<` or `&`. Every call therefore passes, as its reverse-entities argument, a table that evaluates to a map with entries for '<' and '&' whose values decode back to those characters — otherwise `a=\"&#60;\"` becomes `a=\"<\"` (ill-formed) and `x &#60;b&#62; y` becomes markup")
+	pk := c.pkg(rule, rel)
+	if pk == nil {
+		return
+	}
+	info := pk.TypesInfo
+	n := 0
+	for _, fd := range load.FuncDecls(pk) {
+		for _, call := range findCalls(info, fd.Body, true, load.ParseMod+".ReplaceEntities", load.ParseMod+".ReplaceMultipleWhitespaceAndEntities") {
+			n++
+			construct := fmt.Sprintf("%s.%s/%s(%s) re-escapes markup characters", pk.Name, load.FuncName(fd), str(call.Fun), str(call.Args[0]))
+			var missing []string
+			if isNilExpr(call.Args[2]) {
+				missing = []string{"<", "&"}
+			} else if v, err := c.Ev.Expr(pk, call.Args[2]); err != nil {
+				c.R.Unres(rule, construct, c.pos(call), "reverse-entities argument cannot be evaluated: "+err.Error())
+				continue
+			} else if m, ok := v.(*eval.Map); ok {
+				for _, ch := range []byte{'<', '&'} {
+					val, has := m.Get(int64(ch))
+					b, _ := val.([]byte)
+					if !has || xmlUnescape(string(b)) != string(ch) {
+						missing = append(missing, string(ch))
+					}
+				}
+			} else {
+				missing = []string{"<", "&"}
+			}
+			c.R.Check(len(missing) == 0, rule, construct, c.pos(call), "reverse map covers '<' and '&'",
+				"a numeric character reference for "+strings.Join(missing, " / ")+" is decoded and the bare character is written into the document: the output is not well-formed or parses to a different tree")
+		}
+	}
+	c.R.Floor(rule, rel+" entity replacement calls", n, floor)
 }
 
 // ---------------------------------------------------------------------------
